@@ -18,7 +18,7 @@ RULE = ("random points of each domain (rho>0.2, polar angle in (0.15, pi-0.15), 
         "non-trivial = point off the coordinate planes; distinct = (point, pair).")
 ASSUMPTIONS = ["own geometric model in this file (written from the ISO definitions)"]
 N = {"quick": 208, "thorough": 4800}
-MIN_REACH = {"quick": {"scalars": 1000, "roundtrip": 1000, "via_third": 1000, "base_vectors": 1000, "inverse_transpose": 500,
+MIN_REACH = {"quick": {"symbolic_point": 1000, "vector_bracketed": 1000, "vector_chain": 2000, "scalars": 1000, "roundtrip": 1000, "via_third": 1000, "base_vectors": 1000, "inverse_transpose": 500,
                        "point": 1000, "vector": 1000, "lame": 400, "refusal": 5, "negative_y": 40},
              "thorough": {"scalars": 20000, "base_vectors": 20000, "vector": 20000}}
 SHARD_TIMEOUT = {"quick": 600, "thorough": 3000}
@@ -162,6 +162,31 @@ def work(spec, rec):
                 if not all(close(u, v, 1e-8) for u, v in zip(to_cart(b, gotb), c)):
                     rec.violation(f"point:{a}->{b}", f"convert_point {q[a]} ({a}) -> {gotb} ({b}) moves the Cartesian position {c} to {to_cart(b, gotb)}", case)
                     continue
+                # (4') points with symbolic coordinates: fresh symbols, the system's own base scalars in another order, simple
+                # expressions of them - converted symbolically, then evaluated
+                style = r.choice(["fresh", "permuted", "expressions"])
+                own = list(S[a].base_scalars)
+                if style == "fresh":
+                    coords = list(sympy.symbols("u_1 u_2 u_3", real=True))
+                    vals = dict(zip(coords, q[a]))
+                    num = list(q[a])
+                else:
+                    # numeric values of the own base scalars chosen so that the permuted / shifted coordinates are a valid point
+                    perm = r.choice([(1, 0, 2), (0, 2, 1), (2, 1, 0), (1, 2, 0)]) if (style == "permuted" and a == "cart") else (0, 1, 2)
+                    if style == "permuted" or a != "cart":
+                        coords = [own[j] for j in perm]
+                        vals = {own[j]: q[a][i] for i, j in enumerate(perm)}
+                    else:
+                        coords = [2 * own[1], own[0] + 1, own[2]]
+                        vals = {own[1]: q[a][0] / 2, own[0]: q[a][1] - 1, own[2]: q[a][2]}
+                    num = list(q[a])
+                sp_ = AppliedPoint(coords, S[a])
+                spb = convert_point(sp_, S[b])
+                gots = [fl(sympy.sympify(spb[sc]).subs(vals, simultaneous=True)) for sc in S[b].base_scalars]
+                rec.hit("symbolic_point")
+                if not all(close(u, v, 1e-8) for u, v in zip(to_cart(b, gots), c)):
+                    rec.violation(f"symbolic-point:{a}->{b}:{style}", f"convert_point of the symbolic point {coords} ({a}; evaluated at {num}) -> {[str(spb[sc])[:40] for sc in S[b].base_scalars]} = {gots} ({b}) has Cartesian position {to_cart(b, gots)}, expected {c}", dict(case, style=style))
+                    continue
                 # (3) base vectors
                 args_a = () if a == "cart" else (pts[a],)
                 args_b = () if b == "cart" else (pts[b],)
@@ -190,37 +215,59 @@ def work(spec, rec):
                 # (5) convert_vector preserves Cartesian components
                 coef = [r.uniform(-2, 2) for _ in range(3)]
                 vec_expr = sum(sympy.Float(coef[i], 30) * ea[i] for i in range(3))
-                nv = convert_vector(vec_expr, pts[a], S[b])
-                nv = sympy.expand(nv)
+                nv_raw = convert_vector(vec_expr, pts[a], S[b])
                 want_c = [sum(coef[i] * Ba[i][k] for i in range(3)) for k in range(3)]
-                got_c = [0.0, 0.0, 0.0]
-                rest = nv
                 from symplyphysics.core.experimental.vectors import AppliedVectorFunction, VectorSymbol
-                raw_b = S[b].args[1]
-                for atom in nv.atoms(AppliedVectorFunction, VectorSymbol):
-                    j = None
-                    for jj, rb in enumerate(raw_b):
-                        if atom == rb or getattr(atom, "func", None) == rb:
-                            j = jj
-                    if j is None:
-                        continue
-                    if isinstance(atom, AppliedVectorFunction):
-                        # base vector attached to the point computed by the library: use *that* point's coordinates
-                        pt = atom.args[0]
-                        qq = [fl(pt[sc]) for sc in S[b].base_scalars]
-                        if not all(close(u, v, 1e-8) for u, v in zip(to_cart(b, qq), c)):
-                            rec.violation(f"vector-attached-to-moved-point:{a}->{b}", f"convert_vector attaches the result to {qq} ({b}), Cartesian {to_cart(b, qq)}, expected {c}", case)
-                        Bj = basis(b, qq)[j]
-                    else:
-                        Bj = Bb[j]
-                    cj = nv.coeff(atom)
-                    rest = rest - cj * atom
-                    for k in range(3):
-                        got_c[k] += fl(cj) * Bj[k]
+
+                def cartesian_of(vec, sysname, default_basis, label):
+                    """Cartesian components of a vector written in the base vectors of `sysname` (+ what is left over)"""
+                    vec = sympy.expand(vec)
+                    got = [0.0, 0.0, 0.0]
+                    rest_ = vec
+                    raw = S[sysname].args[1]
+                    for atom in vec.atoms(AppliedVectorFunction, VectorSymbol):
+                        j = None
+                        for jj, rb in enumerate(raw):
+                            if atom == rb or getattr(atom, "func", None) == rb:
+                                j = jj
+                        if j is None:
+                            continue
+                        if isinstance(atom, AppliedVectorFunction):
+                            # base vector attached to the point computed by the library: use *that* point's coordinates
+                            pt = atom.args[0]
+                            qq = [fl(pt[sc]) for sc in S[sysname].base_scalars]
+                            if not all(close(u, v, 1e-8) for u, v in zip(to_cart(sysname, qq), c)):
+                                rec.violation(f"vector-attached-to-moved-point:{label}", f"convert_vector attaches the result to {qq} ({sysname}), Cartesian {to_cart(sysname, qq)}, expected {c}", case)
+                            Bj = basis(sysname, qq)[j]
+                        else:
+                            Bj = default_basis[j]
+                        cj = vec.coeff(atom)
+                        rest_ = rest_ - cj * atom
+                        for k in range(3):
+                            got[k] += fl(cj) * Bj[k]
+                    return got, rest_
+                got_c, rest = cartesian_of(nv_raw, b, Bb, f"{a}->{b}")
                 rec.hit("vector")
                 if sympy.simplify(rest) != 0 or not all(close(u, v, 1e-8) for u, v in zip(got_c, want_c)):
                     rec.violation(f"vector:{a}->{b}", f"convert_vector of {coef} ({a} basis at {q[a]}) gives Cartesian {got_c} (+ residual {str(rest)[:60]}), expected {want_c}", case)
                     continue
+                # (5') the same vector written with brackets, and the result of one conversion (as returned, not expanded)
+                # converted on: back to the first system and to the third one
+                k_ = sympy.Float(r.uniform(0.5, 2), 30)
+                bracketed = k_ * (sympy.Float(coef[0], 30) / k_ * ea[0] + sympy.Float(coef[1], 30) / k_ * ea[1]) + sympy.Float(coef[2], 30) * ea[2]
+                got_b, rest_b = cartesian_of(convert_vector(bracketed, pts[a], S[b]), b, Bb, f"{a}->{b}")
+                rec.hit("vector_bracketed")
+                if sympy.simplify(rest_b) != 0 or not all(close(u, v, 1e-8) for u, v in zip(got_b, want_c)):
+                    rec.violation(f"vector:{a}->{b}:bracketed", f"convert_vector of the bracketed {str(bracketed)[:80]} gives Cartesian {got_b} (+ residual {str(rest_b)[:60]}), expected {want_c}", case)
+                    continue
+                for target in (a, third):
+                    Bt = basis(target, q[target])
+                    onward = convert_vector(nv_raw, pb, S[target])
+                    got_t, rest_t = cartesian_of(onward, target, Bt, f"{a}->{b}->{target}")
+                    rec.hit("vector_chain")
+                    if sympy.simplify(rest_t) != 0 or not all(close(u, v, 1e-8) for u, v in zip(got_t, want_c)):
+                        rec.violation(f"vector-chain:{a}->{b}->{target}", f"convert_vector {a}->{b}->{target} of {coef} gives Cartesian {got_t} (+ residual {str(rest_t)[:60]}), expected {want_c}", case)
+                        break
             except Exception as e:  # pylint: disable=broad-except
                 rec.violation(f"raises:{a}->{b}:{type(e).__name__}", f"conversion {a}->{b} at {q[a]} raised {type(e).__name__}: {str(e)[:120]}", case)
                 continue
